@@ -217,3 +217,15 @@ package state
 //@   trusted
 //@   ensures result == stateroot(self, deleteEmptyObjects)
 //@   keeps big
+
+// Ghost model of the pool's managed (virtual) nonces (C15): mnonce[s][a] is what GetNonce(a)
+// reports for managed state s (ghost instrumentation of the two accessors).
+//@ ghost mnonce (Array Int (Array (Array (_ BitVec 64) (_ BitVec 8)) (_ BitVec 64)))
+//@ func ManagedState.GetNonce
+//@   trusted
+//@   ensures result == mnonce[ms][addr]
+//@   assigns nothing
+//@ func ManagedState.SetNonce
+//@   trusted
+//@   ensures mnonce == store(old(mnonce), ms, store(old(mnonce)[ms], addr, nonce))
+//@   assigns mnonce
